@@ -72,8 +72,14 @@ RepPlans(n, v) ==
       s \in CanonSyntaxes, r \in {x \in Reps : RepApplies(TRef(n), v, x)}}
   \cup {<<OpBuild(1), OpEncode(1, s), OpDecodeLit(2, "DER", BerVar(Env, TRef(n), v, BerStyles[i]), StyleName(i)), OpCompare(1, 2), OpEncode(2, s)>> :
            s \in CanonSyntaxes, i \in {16}}
+\* C08: the value itself (valid by construction) and every single-constraint corruption of it
+CheckPlans(n, v) ==
+  IF ~Valid(RawEnv, TRef(n), v) THEN {}      \* out-of-root values of extensible constraints are not C08's
+  ELSE {<<OpBuild(1), OpCheck(1)>>}
+       \cup {<<OpBuildVal(1, x), OpCheck(1)>> : x \in Corruptions(RawEnv, TRef(n), v)}
 PlansFor(n, v) ==
-  CASE PlanSet = "reps" -> RepPlans(n, v)
+  CASE PlanSet = "check" -> CheckPlans(n, v)
+    [] PlanSet = "reps" -> RepPlans(n, v)
     [] PlanSet = "variants" -> BerVariants(n, v) \cup PerOerVariants(n, v) \cup XerVariants(n, v)
     [] PlanSet = "split" -> UNION {Splits(st[1], st[2]) : st \in Streams(n, v)}
     [] PlanSet = "chunks" -> UNION {(IF Len(st[2]) <= MaxCompose THEN AllChunkings(st[1], st[2]) ELSE {})
